@@ -970,7 +970,8 @@ func c15bulk(c *Ctx, tmp string) {
 			// ones, so that responses are still due when the server sees the end of input
 			var resp *http.Response
 			var err error
-			if s%3 == 2 && !endsBroken {
+			halfClosed := s%3 == 2 && !endsBroken
+			if halfClosed {
 				for k := 0; k < 2; k++ {
 					n++
 					r := bulkReq{"sleep", fmt.Sprintf("s%d-r%d", s, n), fmt.Sprintf("%dms", 60+40*k+rng.IntN(40))}
@@ -1054,7 +1055,15 @@ func c15bulk(c *Ctx, tmp string) {
 						c.R.Fail("bulk:sign-key:"+strings.SplitN(kinds[i], ":", 2)[0], fmt.Sprintf("stream %d: %s (%s) was signed with key id %q, expected %q", s, rq.ReqID, kinds[i], kid, wantKid), wit())
 					}
 				}
-				if have := comparablePayload(rq.Action, g); have != want {
+				have := comparablePayload(rq.Action, g)
+				if halfClosed && have != want && strings.Contains(string(g.Error), "context canceled") {
+					// net/http cancels the request context when it sees the client's FIN; an
+					// operation caught by that answers with the cancellation error.  Nothing
+					// is promised for a cancelled request beyond its one response (§10.10).
+					c.R.Count("bulk_half_closed_requests_answered_cancelled", 1)
+					continue
+				}
+				if have != want {
 					c.R.Fail("bulk:payload:"+strings.SplitN(kinds[i], ":", 2)[0], fmt.Sprintf("stream %d: response to %s (%s) differs from the standalone operation: %s vs %s", s, rq.ReqID, kinds[i], trunc(have), trunc(want)), wit())
 				}
 			}
